@@ -1,6 +1,7 @@
 package exec
 
 import (
+	"encoding/json"
 	"errors"
 	"fmt"
 	"go/token"
@@ -45,6 +46,10 @@ func (m *Machine) callForeign(caller *frame, pos token.Pos, fn *ssa.Function, ar
 	if strings.HasSuffix(name, ".init") {
 		return nil // dependency initialisers are not run (package state of deps is opaque)
 	}
+	if nf, ok := nativeReg[name]; ok {
+		m.foreign[name+" (native/concretised)"]++
+		return m.callNativeGeneric(name, nf, pos, args)
+	}
 	panic(pathEnd{kind: "unsupported", msg: "foreign function without model: " + fn.String()})
 }
 
@@ -72,6 +77,12 @@ func init() { tAny.Complete() }
 // toNative converts an engine value (as held in an `any`) into a native Go
 // value. ok=false if it contains symbolic leaves or unsupported shapes.
 func (m *Machine) toNative(v value) (any, bool) {
+	m.walk++
+	defer func() { m.walk-- }()
+	if m.walk > 200 {
+		m.cyclicSeen = true
+		return nil, false // self-containing structure
+	}
 	switch v := v.(type) {
 	case iface:
 		if v.t == nil {
@@ -246,14 +257,24 @@ func (m *Machine) formatArgs(format string, args []value) (res value, wraps []va
 		if ai >= len(args) {
 			break
 		}
-		a := args[ai]
+		a := m.stringerText(args[ai])
+		args[ai] = a
 		ai++
 		if vb[len(vb)-1] == 'w' {
 			wraps = append(wraps, a)
 		}
+		if vb == "%T" {
+			natives = append(natives, m.shallowNative(a))
+			continue
+		}
+		m.cyclicSeen = false
 		n, ok := m.toNative(a)
 		if !ok {
 			allNative = false
+			if m.cyclicSeen {
+				// the real fmt walks the value recursively and never returns
+				panic(pathEnd{kind: "frames", msg: "fmt formats a self-containing structure: unbounded recursion (fatal stack overflow)"})
+			}
 		}
 		natives = append(natives, n)
 	}
@@ -287,18 +308,167 @@ func (m *Machine) formatArgs(format string, args []value) (res value, wraps []va
 		if vb != "%s" && vb != "%v" {
 			return nil, wraps, false
 		}
-		inner := a
-		if i, ok := a.(iface); ok {
-			inner = i.v
-		}
-		if ss, ok := inner.(symStr); ok {
-			out = append(out, ss.B...)
+		if fb, ok := m.fmtV(a); ok {
+			out = append(out, fb...)
 			continue
 		}
 		return nil, wraps, false
 	}
 	emit(lit[len(lit)-1])
 	return mkStr(out), wraps, true
+}
+
+// fmtV: the %v text of a JSON-like engine value whose strings may be
+// symbolic (fmt prints maps with sorted keys, strings raw, nil as <nil>).
+func (m *Machine) fmtV(v value) ([]*sym.Term, bool) {
+	m.walk++
+	defer func() { m.walk-- }()
+	if m.walk > 200 {
+		return nil, false
+	}
+	lit := func(s string) []*sym.Term { b, _ := m.strTerms(s); return b }
+	switch x := v.(type) {
+	case iface:
+		if x.t == nil {
+			return lit("<nil>"), true
+		}
+		return m.fmtV(x.v)
+	case string:
+		return lit(x), true
+	case symStr:
+		return x.B, true
+	case bool, int, int64, float64:
+		return lit(fmt.Sprintf("%v", x)), true
+	case symIface:
+		sc := x.s
+		switch {
+		case m.decide(m.kindIs(sc, skNil)):
+			return lit("<nil>"), true
+		case m.decide(m.kindIs(sc, skBool)):
+			if m.decide(sc.B) {
+				return lit("true"), true
+			}
+			return lit("false"), true
+		case m.decide(m.kindIs(sc, skStr)):
+			s, _ := m.scalarString(sc).(string)
+			return lit(s), true
+		case m.decide(m.st.Or(m.kindIs(sc, skInt), m.kindIs(sc, skInt64))):
+			return m.fmtV(symv{T: sc.I, K: types.Int})
+		}
+		panic(pathEnd{kind: "outside", msg: "%v of a symbolic float64 (number formatting is not modelled)"})
+	case symv:
+		if isIntKind(x.K) && kindSigned(x.K) {
+			w := int(x.T.Sort.W)
+			for n := int64(-9); n <= 9; n++ {
+				if m.decide(m.st.Eq(x.T, m.st.BVC(w, uint64(n)))) {
+					return lit(fmt.Sprint(n)), true
+				}
+			}
+			panic(pathEnd{kind: "outside", msg: "%v of a symbolic integer outside [-9,9]"})
+		}
+		if x.K == types.Bool {
+			if m.decide(x.T) {
+				return lit("true"), true
+			}
+			return lit("false"), true
+		}
+		panic(pathEnd{kind: "outside", msg: "%v of a symbolic float64 (number formatting is not modelled)"})
+	case *symMap:
+		out := lit("map[")
+		for i, k := range m.sortedKeys(x) {
+			if i > 0 {
+				out = append(out, lit(" ")...)
+			}
+			kb, _ := m.strTerms(k)
+			out = append(out, kb...)
+			out = append(out, lit(":")...)
+			e, _ := m.mapLookup(x, k)
+			eb, ok := m.fmtV(e)
+			if !ok {
+				return nil, false
+			}
+			out = append(out, eb...)
+		}
+		return append(out, lit("]")...), true
+	case []value:
+		out := lit("[")
+		for i, e := range x {
+			if i > 0 {
+				out = append(out, lit(" ")...)
+			}
+			eb, ok := m.fmtV(e)
+			if !ok {
+				return nil, false
+			}
+			out = append(out, eb...)
+		}
+		return append(out, lit("]")...), true
+	}
+	return nil, false
+}
+
+// shallowNative: a native value with the same dynamic type (for %T).
+func (m *Machine) shallowNative(a value) any {
+	i, ok := a.(iface)
+	if !ok {
+		if n, ok := m.toNative(a); ok {
+			return n
+		}
+		return nil
+	}
+	switch x := i.v.(type) {
+	case *symMap:
+		return map[string]any{}
+	case []value:
+		return []any{}
+	case symStr:
+		return ""
+	case symv:
+		switch x.K {
+		case types.Bool:
+			return false
+		case types.Float64:
+			return float64(0)
+		case types.Int64:
+			return int64(0)
+		}
+		return 0
+	}
+	if i.t == nil {
+		return nil
+	}
+	if n, ok := m.toNative(a); ok {
+		return n
+	}
+	return nil
+}
+
+// stringerText: fmt calls String() on operands that have it (bkl's *Document
+// and *file); the method is run by the engine.
+func (m *Machine) stringerText(a value) value {
+	i, ok := a.(iface)
+	if !ok || i.t == nil {
+		return a
+	}
+	if _, isErr := i.v.(*errObj); isErr {
+		return a
+	}
+	if _, isPtr := i.t.Underlying().(*types.Pointer); !isPtr {
+		if _, isNamed := i.t.(*types.Named); !isNamed {
+			return a
+		}
+	}
+	ms := m.prog.MethodSets.MethodSet(i.t)
+	sel := ms.Lookup(nil, "String")
+	if sel == nil {
+		return a
+	}
+	fn := m.prog.MethodValue(sel)
+	if fn == nil || m.isForeign(fn) {
+		return a
+	}
+	r := m.call(nil, token.NoPos, fn, []value{i.v})
+	return iface{tString, r}
 }
 
 func variadic(v value) []value {
@@ -447,15 +617,40 @@ func (m *Machine) splitPositions(s []*sym.Term, p string, max int) []int {
 }
 
 func fReplaceAll(m *Machine, fr *frame, pos token.Pos, args []value) value {
-	if x, ok := args[0].(string); ok {
-		if y, z, ok := bothConc(args[1], args[2]); ok {
-			return strings.ReplaceAll(x, y, z)
+	return m.replaceN(args[0], args[1], args[2], -1)
+}
+
+func fReplace(m *Machine, fr *frame, pos token.Pos, args []value) value {
+	n := int(m.concretizeInt(args[3], -1, 64))
+	return m.replaceN(args[0], args[1], args[2], n)
+}
+
+func fContains(m *Machine, fr *frame, pos token.Pos, args []value) value {
+	if x, y, ok := bothConc(args[0], args[1]); ok {
+		return strings.Contains(x, y)
+	}
+	sub := concStr(args[1], "strings.Contains")
+	bs, _ := m.strTerms(args[0])
+	var alts []*sym.Term
+	for i := 0; i+len(sub) <= len(bs); i++ {
+		alts = append(alts, m.matchAt(bs, i, sub))
+	}
+	return m.unsym(m.st.Or(alts...), types.Bool)
+}
+
+func (m *Machine) replaceN(sv, oldv, newv value, n int) value {
+	if x, ok := sv.(string); ok {
+		if y, z, ok := bothConc(oldv, newv); ok {
+			return strings.Replace(x, y, z, n)
 		}
 	}
-	old := concStr(args[1], "strings.ReplaceAll")
-	nw := concStr(args[2], "strings.ReplaceAll")
-	s, _ := m.strTerms(args[0])
-	ps := m.splitPositions(s, old, -1)
+	old := concStr(oldv, "strings.Replace")
+	nw := concStr(newv, "strings.Replace")
+	s, _ := m.strTerms(sv)
+	if n == 0 {
+		return sv
+	}
+	ps := m.splitPositions(s, old, n)
 	nb, _ := m.strTerms(nw)
 	var out []*sym.Term
 	prev := 0
@@ -899,12 +1094,18 @@ func fYamlUnmarshal(m *Machine, fr *frame, pos token.Pos, args []value) value {
 		return iface{}
 	case []value:
 		bs := make([]byte, len(in))
+		symbolic := false
 		for i, b := range in {
 			c, ok := b.(uint8)
 			if !ok {
-				unsupported("yaml.Unmarshal of symbolic bytes")
+				symbolic = true
+				break
 			}
 			bs[i] = c
+		}
+		if symbolic {
+			*dst = m.yamlPlainScalar(in)
+			return iface{}
 		}
 		var ret any
 		if err := yaml.Unmarshal(bs, &ret); err != nil {
@@ -915,6 +1116,39 @@ func fYamlUnmarshal(m *Machine, fr *frame, pos token.Pos, args []value) value {
 	}
 	unsupported("yaml.Unmarshal input %T", args[0])
 	return nil
+}
+
+// yamlPlainScalar: contract for yaml.Unmarshal of a symbolic text into an
+// `any`, restricted to texts that are certainly plain string scalars: a
+// letter followed by letters, digits, '_', '.', '-' and not one of YAML's
+// bool/null words. Such a text decodes to itself. Any other symbolic text
+// is outside the claimed alphabet (the path ends, counted as "outside").
+func (m *Machine) yamlPlainScalar(in []value) value {
+	st := m.st
+	bs := make([]*sym.Term, len(in))
+	for i, b := range in {
+		bs[i] = m.term(b)
+	}
+	rng := func(b *sym.Term, lo, hi byte) *sym.Term {
+		return st.And(st.ULe(st.BVC(8, uint64(lo)), b), st.ULe(b, st.BVC(8, uint64(hi))))
+	}
+	letter := func(b *sym.Term) *sym.Term { return st.Or(rng(b, 'a', 'z'), rng(b, 'A', 'Z')) }
+	var cs []*sym.Term
+	if len(bs) == 0 {
+		panic(pathEnd{kind: "outside", msg: "empty symbolic text reaches the YAML reference parser"})
+	}
+	cs = append(cs, letter(bs[0]))
+	for _, b := range bs[1:] {
+		cs = append(cs, st.Or(letter(b), rng(b, '0', '9'), st.Eq(b, st.BVC(8, '_')), st.Eq(b, st.BVC(8, '.')), st.Eq(b, st.BVC(8, '-'))))
+	}
+	for _, w := range []string{"true", "True", "TRUE", "false", "False", "FALSE", "null", "Null", "NULL", "y", "Y", "n", "N", "yes", "Yes", "YES", "no", "No", "NO", "on", "On", "ON", "off", "Off", "OFF"} {
+		wb, _ := m.strTerms(w)
+		cs = append(cs, st.Not(m.strEq(bs, wb)))
+	}
+	if !m.decide(st.And(cs...)) {
+		panic(pathEnd{kind: "outside", msg: "symbolic text that is not certainly a plain YAML string reaches the reference parser"})
+	}
+	return iface{tString, mkStr(bs)}
 }
 
 // ---- misc ----
@@ -988,6 +1222,8 @@ func init() {
 		"strings.TrimPrefix":        fTrimPrefix,
 		"strings.TrimSuffix":        fTrimSuffix,
 		"strings.ReplaceAll":        fReplaceAll,
+		"strings.Replace":           fReplace,
+		"strings.Contains":          fContains,
 		"strings.Split":             fSplit,
 		"strings.SplitN":            fSplitN,
 		"strings.Count":             fCount,
@@ -1012,6 +1248,21 @@ func init() {
 		"path/filepath.Join":        fFilepathJoin,
 		"unicode.IsLower":           fIsLower,
 		"regexp.MustCompile":        fRegexpMustCompile,
+		"(*regexp.Regexp).ReplaceAllStringFunc": fRegexpReplaceAllStringFunc,
+		"(encoding/json.Number).Int64": func(m *Machine, fr *frame, pos token.Pos, args []value) value {
+			n, err := json.Number(concStr(args[0], "json.Number.Int64")).Int64()
+			if err != nil {
+				return tuple{int64(0), m.mkErr(err.Error(), false)}
+			}
+			return tuple{n, iface{}}
+		},
+		"(encoding/json.Number).Float64": func(m *Machine, fr *frame, pos token.Pos, args []value) value {
+			f, err := json.Number(concStr(args[0], "json.Number.Float64")).Float64()
+			if err != nil {
+				return tuple{float64(0), m.mkErr(err.Error(), false)}
+			}
+			return tuple{f, iface{}}
+		},
 		"reflect.DeepEqual": func(m *Machine, fr *frame, pos token.Pos, args []value) value {
 			return m.unsym(m.deepEqTerm(args[0], args[1], true), types.Bool)
 		},
@@ -1052,6 +1303,65 @@ func opaqueOf(v value, kind string) any {
 
 func fRegexpMustCompile(m *Machine, fr *frame, pos token.Pos, args []value) value {
 	return opaquePtr("regexp", regexp.MustCompile(concStr(args[0], "regexp.MustCompile")))
+}
+
+// fRegexpReplaceAllStringFunc: exact for concrete subjects (the real regexp
+// finds the matches; the callback runs in the engine, so replacements may be
+// symbolic). For symbolic subjects only the pattern `{.*?}` is modelled:
+// leftmost match, lazy, `.` excludes newline.
+func fRegexpReplaceAllStringFunc(m *Machine, fr *frame, pos token.Pos, args []value) value {
+	re := opaqueOf(args[0], "regexp").(*regexp.Regexp)
+	callback := args[2]
+	var spans [][2]int
+	subj := args[1]
+	bs, _ := m.strTerms(subj)
+	if cs, ok := subj.(string); ok {
+		for _, ix := range re.FindAllStringIndex(cs, -1) {
+			spans = append(spans, [2]int{ix[0], ix[1]})
+		}
+	} else {
+		if re.String() != "{.*?}" {
+			subj = m.concretise(subj, "regexp "+re.String())
+			return fRegexpReplaceAllStringFunc(m, fr, pos, []value{args[0], subj, callback})
+		}
+		st := m.st
+		for i := 0; i < len(bs); {
+			if !m.decide(st.Eq(bs[i], st.BVC(8, '{'))) {
+				i++
+				continue
+			}
+			end := -1
+			for k := i + 1; k < len(bs); k++ {
+				if m.decide(st.Eq(bs[k], st.BVC(8, '}'))) {
+					end = k
+					break
+				}
+				if m.decide(st.Eq(bs[k], st.BVC(8, '\n'))) {
+					break
+				}
+			}
+			if end < 0 {
+				i++
+				continue
+			}
+			spans = append(spans, [2]int{i, end + 1})
+			i = end + 1
+		}
+	}
+	var out []*sym.Term
+	prev := 0
+	for _, sp := range spans {
+		out = append(out, bs[prev:sp[0]]...)
+		r := m.call(fr, pos, callback, []value{mkStr(bs[sp[0]:sp[1]])})
+		rb, ok := m.strTerms(r)
+		if !ok {
+			unsupported("regexp callback returned %T", r)
+		}
+		out = append(out, rb...)
+		prev = sp[1]
+	}
+	out = append(out, bs[prev:]...)
+	return mkStr(out)
 }
 
 func (m *Machine) opaqueMethod(o opaque, name string, args []value) value {
